@@ -95,10 +95,74 @@ pub fn check(compiled: &CompiledProgram, commit: &CommitNode<Elements>, sites: &
         }
         false
     }
+    // problems of reconstructing the sample values of site p through the tracked call of marker m
+    let sample_problems = |m: &(u32, &str, String, &simfony::debug::TrackedCall), p: &(String, String, &J)| -> R<Vec<(String, String)>> {
+        let (i, kind, text, tc) = m;
+        let mut out = vec![];
+        let Some(samples) = p.2["samples"].as_array() else { return Ok(out) };
+        if samples.is_empty() {
+            return Ok(out);
+        }
+        let ty = ty_from_json(&p.2["ty"])?;
+        for sj in samples {
+            let v = val_from_json(sj, &ty)?;
+            let sv = StructuralValue::from(&v);
+            // a panic inside the reconstruction is an outcome of the debug-symbol machinery (C14), not of a text entry point
+            let mapped = match std::panic::catch_unwind(std::panic::AssertUnwindSafe(|| tc.map_value(&sv))) {
+                Ok(m) => m,
+                Err(pn) => {
+                    let msg = pn.downcast_ref::<String>().cloned()
+                        .or_else(|| pn.downcast_ref::<&str>().map(|s| s.to_string()))
+                        .unwrap_or_default();
+                    out.push(("map_value_panic".to_string(),
+                        format!("marker {i} ({kind} `{}`): reconstructing value {v} panicked: {msg}", tc.text())));
+                    continue;
+                }
+            };
+            let ok = match mapped {
+                Some(Either::Right(dv)) => *kind == "dbg" && dv.value() == &v && &strip_ws(dv.text()) == text,
+                Some(Either::Left(fc)) => match fc.name() {
+                    FallibleCallName::UnwrapLeft(x) => *kind == "unwrap_left" && x == &v,
+                    FallibleCallName::UnwrapRight(x) => *kind == "unwrap_right" && x == &v,
+                    _ => false,
+                },
+                None => false,
+            };
+            if !ok {
+                out.push(("map_value".to_string(),
+                    format!("marker {i} ({kind} `{}`): value {v} is not reconstructed from its Simplicity form", tc.text())));
+            }
+        }
+        Ok(out)
+    };
     let adj: Vec<Vec<usize>> = resolved
         .iter()
         .map(|m| (0..predicted.len()).filter(|&s| compatible(m, &predicted[s])).collect())
         .collect();
+    // Two call sites may have the same text and kind but arguments of different types (`unwrap_right::<u1>(Left(1))` at
+    // two places): first look for an assignment in which every marker also reconstructs the sample values of its site;
+    // only if there is none, fall back to the assignment by text and kind and report what does not reconstruct.
+    let mut strict_adj: Vec<Vec<usize>> = vec![];
+    for (mi, m) in resolved.iter().enumerate() {
+        let mut row = vec![];
+        for &s in &adj[mi] {
+            if sample_problems(m, &predicted[s])?.is_empty() {
+                row.push(s);
+            }
+        }
+        strict_adj.push(row);
+    }
+    let mut strict_site_of: Vec<Option<usize>> = vec![None; predicted.len()];
+    let mut strict_all = true;
+    for m in 0..resolved.len() {
+        let mut seen = vec![false; predicted.len()];
+        if !try_assign(m, &strict_adj, &mut seen, &mut strict_site_of) {
+            strict_all = false;
+        }
+    }
+    if strict_all && strict_site_of.iter().all(|o| o.is_some()) {
+        return Ok(markers.len());
+    }
     let mut matched = vec![false; resolved.len()];
     for m in 0..resolved.len() {
         let mut seen = vec![false; predicted.len()];
@@ -117,41 +181,8 @@ pub fn check(compiled: &CompiledProgram, commit: &CommitNode<Elements>, sites: &
             None => issues.push(json!({"at":"debug","what":"site_without_marker",
                 "msg": format!("{} call `{}` has no marker in the debug build", p.0, p.1)})),
             Some(m) => {
-                let (i, kind, text, tc) = &resolved[*m];
-                // reconstruct sample input values through the symbol
-                if let Some(samples) = p.2["samples"].as_array() {
-                    if !samples.is_empty() {
-                        let ty = ty_from_json(&p.2["ty"])?;
-                        for sj in samples {
-                            let v = val_from_json(sj, &ty)?;
-                            let sv = StructuralValue::from(&v);
-                            // a panic inside the reconstruction is an outcome of the debug-symbol machinery (C14), not of a text entry point
-                            let mapped = match std::panic::catch_unwind(std::panic::AssertUnwindSafe(|| tc.map_value(&sv))) {
-                                Ok(m) => m,
-                                Err(p) => {
-                                    let msg = p.downcast_ref::<String>().cloned()
-                                        .or_else(|| p.downcast_ref::<&str>().map(|s| s.to_string()))
-                                        .unwrap_or_default();
-                                    issues.push(json!({"at":"debug","what":"map_value_panic",
-                                        "msg": format!("marker {i} ({kind} `{}`): reconstructing value {v} panicked: {msg}", tc.text())}));
-                                    continue;
-                                }
-                            };
-                            let ok = match mapped {
-                                Some(Either::Right(dv)) => *kind == "dbg" && dv.value() == &v && &strip_ws(dv.text()) == text,
-                                Some(Either::Left(fc)) => match fc.name() {
-                                    FallibleCallName::UnwrapLeft(x) => *kind == "unwrap_left" && x == &v,
-                                    FallibleCallName::UnwrapRight(x) => *kind == "unwrap_right" && x == &v,
-                                    _ => false,
-                                },
-                                None => false,
-                            };
-                            if !ok {
-                                issues.push(json!({"at":"debug","what":"map_value",
-                                    "msg": format!("marker {i} ({kind} `{}`): value {v} is not reconstructed from its Simplicity form", tc.text())}));
-                            }
-                        }
-                    }
+                for (what, msg) in sample_problems(&resolved[*m], p)? {
+                    issues.push(json!({"at":"debug","what": what, "msg": msg}));
                 }
             }
         }
